@@ -493,12 +493,23 @@ func c10Exec(cs *c10Case, plan *simrt.MapPlan, u *wk.Unit) *wk.Failure {
 				return mk("id insensitive to placeholder structure", fmt.Sprintf("a message with one placeholder used twice and the same message with a print directive on the second use (two distinct placeholders) share the id %d (%q vs %q)", va.Msgs[0].ID, va.Msgs[0].PH, vb.Msgs[0].PH))
 			}
 			return nil
-		case "tag-case", "meaning-whitespace":
+		case "tag-case", "meaning-whitespace", "directive-args":
 			if len(m.Body) > 0 && m.Body[0].T == "plural" {
 				return nil
 			}
 			var pairs [][2]msgSpec
-			if cs.Variant == "tag-case" {
+			if cs.Variant == "directive-args" {
+				// one print used twice, against the same print followed by one that differs from it only in
+				// an argument of a directive or in the order of its directives: two distinct placeholders
+				for _, pd := range [][2]string{{"$c10d|truncate:5", "$c10d|truncate:10"}, {"$c10d|truncate:5,true", "$c10d|truncate:5,false"},
+					{"$c10d|insertWordBreaks:3", "$c10d|insertWordBreaks:4"}, {"$c10d|truncate:5|escapeUri", "$c10d|truncate:6|escapeUri"},
+					{"$c10d|escapeUri|truncate:8", "$c10d|truncate:8|escapeUri"}, {"$c10d|truncate:8", "$c10d|truncate:8,true"}} {
+					a, b := m, m
+					a.Body = append(append([]msgPart{}, m.Body...), msgPart{T: "ph", S: pd[0]}, msgPart{T: "ph", S: pd[0]})
+					b.Body = append(append([]msgPart{}, m.Body...), msgPart{T: "ph", S: pd[0]}, msgPart{T: "ph", S: pd[1]})
+					pairs = append(pairs, [2]msgSpec{a, b})
+				}
+			} else if cs.Variant == "tag-case" {
 				// a tag used twice, against the same tag once in another letter case: two distinct placeholders
 				for _, tg := range [][2]string{{"<a href=\"u\">", "<a HREF=\"u\">"}, {"<b>", "<B>"}, {"<span class=\"k\">", "<span class=\"K\">"}} {
 					a, b := m, m
@@ -517,6 +528,9 @@ func c10Exec(cs *c10Case, plan *simrt.MapPlan, u *wk.Unit) *wk.Failure {
 				va, _ := observeMsgCase(bundleFor("app.m", "t", "m.soy", []msgSpec{pr[0]}), simrt.CanonicalPlan())
 				vb, _ := observeMsgCase(bundleFor("app.m", "t", "m.soy", []msgSpec{pr[1]}), simrt.CanonicalPlan())
 				if !va.Accept || !vb.Accept || len(va.Msgs) != 1 || len(vb.Msgs) != 1 {
+					if cs.Variant == "directive-args" {
+						return &wk.Failure{Class: "invalid-case", Detail: va.Err + vb.Err}
+					}
 					continue
 				}
 				if va.Msgs[0].ID == vb.Msgs[0].ID {
@@ -778,7 +792,7 @@ func C10(c *wk.Ctx) {
 				u.Counters["check_context_nested"]++
 			}
 			// (e) sensitivity
-			for _, v := range []string{"text", "meaning", "placeholder", "plural-structure", "last-char", "meaning-last-char", "text-pairs", "directive", "nested-placeholder", "tag-case", "meaning-whitespace"} {
+			for _, v := range []string{"text", "meaning", "placeholder", "plural-structure", "last-char", "meaning-last-char", "text-pairs", "directive", "nested-placeholder", "tag-case", "meaning-whitespace", "directive-args"} {
 				do(&c10Case{Msg: m, Check: "sensitivity", Variant: v}, nil)
 			}
 			if mi == 0 {
